@@ -17,6 +17,24 @@
 //! Listing order is owned: directories live on tmpfs, whose listing order is a function of the
 //! creation order (calibrated at run time); every directory is read back and the observed order is
 //! compared with the intended one.
+//!
+//! A second engine (`c05/histories.rs`) explores the *edit histories*: trees of all sequences of edits
+//! (state transformers over one universe, incl. nodes without a target name at every level) up to a
+//! stated depth, one tree per directory, plus a few large shapes (chain, fan, ladder of diamonds).
+//!
+//! Clause table (statement / quantifier of C05 → where it is decided, over which space)
+//!
+//! | clause | decided in | space |
+//! |---|---|---|
+//! | mappings of a version = root + exactly the diffs on the root→version path, in order | `check_answer` against `judge` (fold of the reference `apply` along every path); `histories::judge_on_disk` against the edit functions | shapes engine: every rooted DAG ≤ 3 versions (quick; all 79 with 4 versions in the light form) / ≤ 4 (thorough; 5 in the light form) × every labelling with k pool states; histories engine: every history of the depth patterns 1,1 / 2 / 2,1 / 1,2 / 1,1,1 (quick; a pattern lists how many edits each edge folds into one diff) + 2,2 / 1,1,1,1 (three roots) / 2,1,1 / 1,2,1 / 1,1,2 (two roots) (thorough) over the edit alphabet from 4 root states; per root the web of all commuting pairs of single steps (versions with two parents); chain of 96/768 edges, fan of 600/6000 children (28 with names from the wild), ladder of 8/12 diamonds |
+//! | … followed by inner-class-name extension | `extend_ref` applied to every expected state (both engines); root printed extended and contracted | pool states and history states with classes nested once and twice, outer renamed / inner renamed / nested added / nested nameless |
+//! | edit histories: renames, additions, removals, comment edits at every level | `action_census` floors (pool) and `history:edit:<level>.<kind>` floors (histories: add, add with comment, add with members, name on an existing nameless node, rename, remove, comment add/edit/remove × class/field/method/parameter) | see above; composite steps put two edits (also of a node and its member) into one diff |
+//! | the answer does not depend on directory listing order | `run_group`: digest of all answers equal over all orders of a group + every order compared with the oracle | all permutations (≤ 5 files) / rotations, reversal, each file first/last for one labelling per shape; sorted, reversed, rotated for all others; histories: three creation orders alternating |
+//! | every plain version reachable under its name | `run_group` / `judge_on_disk`: `get(name)` gives that version with `Split::None`, `apply_diffs` the oracle's answer; `versions()` = node set | every naming subset (which versions are split) of every shape; a third of the history versions split; 28 names as in the wild (shortcut table, fixture) or with unusual characters (space, `+`, `$`, `%`, parentheses, non-ASCII, leading dot, `.tiny` inside) in the fan |
+//! | every client~server version under either half | same, both halves, `Split::First` / `Split::Second`; the full name may be refused, if accepted it is that version | same |
+//! | no root / two roots / cycle / unreachable version are errors | `mutations` + `run_group` (`malformed:<class>:answered`, `…:arbitrary-answer`; floors per class) | every single mutation of every shape: root removed, second root (existing / new version), every cycle-closing extra edge incl. loops and edges into the root, unreachable pair / parent of each version / cycle / renamed root |
+//! | unknown version is an error | `run_group`: fixed names + names *derived from the directory* (`derived_unknown_names`: a key with a character more or less, padded, other case, `k~`, `~k`, halves swapped, halves of different versions joined, file names, `a#b`) must all be refused by `get` | every directory of the shapes engine (derived names: first listing order of each group) |
+//! | (not in the statement: inconsistent diffs, key collisions, stray files, odd diff/root texts) | `Domain::BadDiff` (answer ∈ results of some path or refusal), `Domain::Outside` (no panic only) | each edge replaced by a refused diff; `outside_domain` |
 
 use std::collections::{BTreeMap, BTreeSet};
 use std::path::{Path, PathBuf};
@@ -26,6 +44,9 @@ use fbrshim::vg::{self, SplitKind};
 use mapmodel::{row, Act, MClass, MDiff, MField, MMethod, MParam, MSet};
 use rayon::prelude::*;
 use vcore::{json, Ctx, Stats, Value};
+
+#[path = "c05/histories.rs"]
+mod histories;
 
 // ---------------------------------------------------------------------------------------------
 // pool of mapping states (contracted form: a nested class carries its own simple name)
@@ -690,6 +711,8 @@ struct Obs {
 	resolve_err: Option<String>,
 	versions: Vec<String>,
 	gets: BTreeMap<String, Result<(SplitKind, String), String>>,
+	/// `get` of names derived from the directory that no file names (not part of the digest)
+	unknown_gets: BTreeMap<String, Option<String>>,
 	applies: BTreeMap<String, Answer>,
 	nth: Vec<(String, Answer)>,
 	panics: Vec<(String, vcore::Panic)>,
@@ -703,7 +726,7 @@ fn project(r: anyhow::Result<vg::VersionMappings>) -> Answer {
 	}
 }
 
-fn observe(dir: &Path, queries: &[String]) -> Obs {
+fn observe(dir: &Path, queries: &[String], unknown: &[String]) -> Obs {
 	let mut o = Obs { listing: listing(dir), ..Default::default() };
 	o.calls += 1;
 	let g = match vcore::guard(|| vg::resolve(dir)) {
@@ -740,6 +763,15 @@ fn observe(dir: &Path, queries: &[String]) -> Obs {
 				}
 			},
 			Err(p) => o.panics.push((format!("get({q:?})"), p)),
+		}
+	}
+	for u in unknown {
+		o.calls += 1;
+		match vcore::guard(|| g.get(u)) {
+			Ok(r) => {
+				o.unknown_gets.insert(u.clone(), r.ok().map(|(_, n)| n));
+			},
+			Err(p) => o.panics.push((format!("get({u:?})"), p)),
 		}
 	}
 	for (i, name) in o.versions.clone().into_iter().enumerate() {
@@ -797,6 +829,54 @@ fn queries_of(sem: &Sem) -> Vec<String> {
 	q.into_iter().collect()
 }
 
+/// Names that no file of the directory defines, derived from the names it does define: what a lookup that
+/// is not exact (prefix, trimmed, case-folded, cut at `~`, by file name, …) would wrongly accept.
+fn derived_unknown_names(sem: &Sem) -> Vec<String> {
+	let mut q: BTreeSet<String> = BTreeSet::new();
+	let names: Vec<&String> = sem.nodes.keys().collect();
+	for (n, e) in &sem.nodes {
+		for (k, _) in &e.keys {
+			q.insert(format!("{k}x"));
+			q.insert(format!(" {k}"));
+			q.insert(format!("{k} "));
+			q.insert(format!("{k}\n"));
+			q.insert(format!("{k}~"));
+			q.insert(format!("~{k}"));
+			q.insert(format!("{k}~{k}"));
+			q.insert(format!("{k}.tiny"));
+			q.insert(format!("{k}.tinydiff"));
+			q.insert(k.to_uppercase());
+			q.insert(k.to_lowercase());
+			let mut shorter: Vec<char> = k.chars().collect();
+			shorter.pop();
+			q.insert(shorter.iter().collect());
+			q.insert(k.chars().skip(1).collect());
+		}
+		if let Some((a, b)) = n.split_once('~') {
+			q.insert(format!("{b}~{a}"));
+			q.insert(format!("{a}~zz"));
+			q.insert(format!("zz~{b}"));
+			q.insert(format!("{a}-{b}"));
+			q.insert(format!("{a}{b}"));
+			q.insert(format!("{n}~{b}"));
+		}
+		q.insert(format!("{n}.tiny"));
+	}
+	for a in &names {
+		for b in &names {
+			if a != b {
+				q.insert(format!("{a}#{b}"));
+				q.insert(format!("{a}#{b}.tinydiff"));
+				let ca = a.split_once('~').map_or(a.as_str(), |x| x.0);
+				let sb = b.split_once('~').map_or(b.as_str(), |x| x.1);
+				q.insert(format!("{ca}~{sb}"));
+			}
+		}
+	}
+	q.retain(|u| !sem.nodes.contains_key(u) && !sem.nodes.values().any(|e| e.keys.iter().any(|(k, _)| k == u)));
+	q.into_iter().collect()
+}
+
 fn replay_text(t: &Texts, g: &Group, order: &[usize], sem: &Sem, obs: Option<&Obs>) -> String {
 	let mut s = format!("group={}\nclass={}\npool_size={}\nintended listing order (first listed first):\n", g.label, sem.domain.name(), POOL_SIZE);
 	for &i in order {
@@ -810,6 +890,11 @@ fn replay_text(t: &Texts, g: &Group, order: &[usize], sem: &Sem, obs: Option<&Ob
 				Ok((split, n)) => format!("Ok(({split:?}, {n:?}))"),
 				Err(e) => format!("Err({e})"),
 			}));
+		}
+		for (k, r) in &o.unknown_gets {
+			if let Some(n) = r {
+				s.push_str(&format!("get({k:?}) (no file names this version) = Ok({n:?})\n"));
+			}
 		}
 		for (k, r) in &o.applies {
 			s.push_str(&format!("apply_diffs(get({k:?})) = {}\n", match r {
@@ -887,6 +972,7 @@ fn run_group(run: &Run, g: &Group, perms: &mut BTreeSet<(usize, Vec<usize>)>, na
 		fail(&format!("generator meant {:?} but the reference reading says {:?} for {}", g.intended, sem.domain, g.label));
 	}
 	let queries = queries_of(&sem);
+	let derived = if sem.domain == Domain::Outside { vec![] } else { derived_unknown_names(&sem) };
 	let mut first_digest: Option<(u64, Vec<usize>)> = None;
 	let mut observed_orders: BTreeSet<Vec<String>> = BTreeSet::new();
 	let mut intended_orders: BTreeSet<Vec<String>> = BTreeSet::new();
@@ -894,7 +980,8 @@ fn run_group(run: &Run, g: &Group, perms: &mut BTreeSet<(usize, Vec<usize>)>, na
 		let id = run.counter.fetch_add(1, Ordering::Relaxed);
 		let dir = run.root.join(format!("d{id}"));
 		materialize(t, &dir, &g.files, order, run.mode);
-		let obs = observe(&dir, &queries);
+		// the derived names are asked in the first listing order of the group
+		let obs = observe(&dir, &queries, if first_digest.is_none() { &derived } else { &[] });
 		dematerialize(&dir, &g.files);
 
 		st.eval();
@@ -1026,6 +1113,12 @@ fn run_group(run: &Run, g: &Group, perms: &mut BTreeSet<(usize, Vec<usize>)>, na
 				None => {},
 			}
 		}
+		for (u, r) in &obs.unknown_gets {
+			match r {
+				Some(name) => run.ctx.diff("get:unknown-accepted", &format!("get({u:?}) of a version no file names answers with {name:?}"), rp),
+				None => st.outcome("refused:unknown-version-derived"),
+			}
+		}
 		if sem.domain != Domain::WellFormed {
 			let must: Vec<&str> = sem.nodes.iter().filter(|(_, e)| e.ok.is_empty()).map(|(n, _)| n.as_str()).collect();
 			if !must.is_empty() && must.iter().all(|n| refused_nodes.contains(n) && !answered_nodes.contains(n)) {
@@ -1134,8 +1227,8 @@ fn has_two_parents(n: usize, shape: &Shape) -> bool {
 	(0..n).any(|v| shape.iter().filter(|(_, b)| *b == v).count() >= 2)
 }
 
-const CLIENT: [&str; 4] = ["1.3", "1.1", "1.4", "1.2"];
-const SERVER: [&str; 4] = ["s0.3", "s0.1", "s0.4", "s0.2"];
+const CLIENT: [&str; 5] = ["1.3", "1.1", "1.4", "1.2", "1.0"];
+const SERVER: [&str; 5] = ["s0.3", "s0.1", "s0.4", "s0.2", "s0.0"];
 
 fn vname(i: usize, split_mask: u32) -> String {
 	if split_mask & (1 << i) != 0 {
@@ -1306,6 +1399,7 @@ fn outside_domain(shape: &Shape, lab: &[usize], split_mask: u32) -> Vec<(String,
 		f
 	};
 	let d = |name: String, from: usize, to: usize| FileSpec { name, content: Content::Diff { from, to } };
+	let raw = |name: String, text: &str| FileSpec { name, content: Content::Raw(text.as_bytes().to_vec()) };
 	let mut out = vec![
 		// two distinct versions share a lookup key
 		("key-collision-plain-and-split".to_owned(), with(vec![d(format!("{root_version}#1.9~s9.tinydiff"), lab[0], 0), d(format!("{root_version}#1.9.tinydiff"), lab[0], 0)])),
@@ -1327,7 +1421,32 @@ fn outside_domain(shape: &Shape, lab: &[usize], split_mask: u32) -> Vec<(String,
 		("second-root-is-a-directory".to_owned(), with(vec![FileSpec { name: "1.9.tiny".into(), content: Content::Dir }])),
 		("garbage-diff".to_owned(), with(vec![FileSpec { name: format!("{root_version}#1.9.tinydiff"), content: Content::Raw(b"tiny\t2\t0\nc\n\tx\n\xff\xfe".to_vec()) }])),
 		("empty-diff-file".to_owned(), with(vec![FileSpec { name: format!("{root_version}#1.9.tinydiff"), content: Content::Raw(vec![]) }])),
+		// diff texts with lines the format description does not define at their place (read when the version is asked for)
+		("diff-with-unknown-sections".to_owned(), with(vec![raw(format!("{root_version}#1.9.tinydiff"), "tiny\t2\t0\nx\tfoo\nc\tA\n\tx\tbar\n\tf\tI\tf\n\t\tx\n\tm\t(I)V\tm\n\t\tx\ty\n\t\tp\t0\t\n\t\t\tx\n")])),
+		("diff-parameter-with-source-name".to_owned(), with(vec![raw(format!("{root_version}#1.9.tinydiff"), "tiny\t2\t0\nc\tA\n\tm\t(I)V\tm\n\t\tp\t0\tsrc\t\tq\n")])),
+		("diff-with-two-comment-lines".to_owned(), with(vec![raw(format!("{root_version}#1.9.tinydiff"), "tiny\t2\t0\nc\tA\n\tc\t\tone\n\tc\t\ttwo\n")])),
+		("diff-comment-line-without-change".to_owned(), with(vec![raw(format!("{root_version}#1.9.tinydiff"), "tiny\t2\t0\nc\tA\n\tc\n\tf\tI\tf\n\t\tc\tsame\tsame\n")])),
+		("diff-indented-too-deep".to_owned(), with(vec![raw(format!("{root_version}#1.9.tinydiff"), "tiny\t2\t0\nc\tA\n\t\t\tc\t\tdeep\n")])),
+		("diff-header-with-namespaces".to_owned(), with(vec![raw(format!("{root_version}#1.9.tinydiff"), "tiny\t2\t0\tofficial\tnamed\nc\tA\n")])),
+		("diff-with-too-many-cells".to_owned(), with(vec![raw(format!("{root_version}#1.9.tinydiff"), "tiny\t2\t0\nc\tA\tx\ty\tz\n")])),
+		("diff-with-same-class-twice".to_owned(), with(vec![raw(format!("{root_version}#1.9.tinydiff"), "tiny\t2\t0\nc\tE\t\tpkg/Eps\nc\tE\t\tpkg/Eps\n")])),
+		("diff-without-final-newline-and-crlf".to_owned(), with(vec![raw(format!("{root_version}#1.9.tinydiff"), "tiny\t2\t0\r\nc\tE\t\tpkg/Eps")])),
 	];
+	// root texts of the same kind
+	for (oname, text) in [
+		("root-with-unknown-sections", "tiny\t2\t0\tofficial\tnamed\nx\tfoo\nc\tA\tpkg/Alpha\n\tx\n\tf\tI\tf\tfieldF\n\t\tx\n\tm\t(I)V\tm\tmethodM\n\t\tx\n\t\tp\t0\t\tp0\n\t\t\tx\n"),
+		("root-with-two-comment-lines", "tiny\t2\t0\tofficial\tnamed\nc\tA\tpkg/Alpha\n\tc\tone\n\tc\ttwo\n"),
+		("root-with-three-namespaces", "tiny\t2\t0\tofficial\tintermediary\tnamed\nc\tA\tB\tpkg/Alpha\n"),
+		("root-with-other-namespace-names", "tiny\t2\t0\ta\tb\nc\tA\tpkg/Alpha\n"),
+		("root-with-same-class-twice", "tiny\t2\t0\tofficial\tnamed\nc\tA\tpkg/Alpha\nc\tA\tpkg/Alpha\n"),
+		("root-nested-class-without-outer", "tiny\t2\t0\tofficial\tnamed\nc\tA$B\tpkg/Alpha$Beta\n"),
+		("root-nested-class-with-nameless-outer", "tiny\t2\t0\tofficial\tnamed\nc\tA\t\nc\tA$B\tBeta\n"),
+		("root-empty-file", ""),
+	] {
+		let mut f: Vec<FileSpec> = base.iter().filter(|f| !f.name.ends_with(".tiny")).cloned().collect();
+		f.push(raw(format!("{root_version}.tiny"), text));
+		out.push((oname.to_owned(), f));
+	}
 	let mut no_root: Vec<FileSpec> = base.iter().filter(|f| !f.name.ends_with(".tiny")).cloned().collect();
 	no_root.push(FileSpec { name: format!("{root_version}.tiny"), content: Content::Raw(b"not tiny at all\n".to_vec()) });
 	out.push(("garbage-root".to_owned(), no_root.clone()));
@@ -1348,6 +1467,9 @@ enum Item {
 	Malformed { n: usize, si: usize, lab: Vec<usize>, mask: u32 },
 	/// directories outside the statement's domain
 	Outside { n: usize, si: usize, mask: u32 },
+	/// the light form for the shapes beyond the bound of the full treatment: the rotation labellings with a few
+	/// namings (well-formed) and every single mutation of the pairwise-different labelling under two namings
+	Light { n: usize, si: usize },
 }
 
 struct ShapeInfo {
@@ -1395,22 +1517,26 @@ fn plan(tier: vcore::Tier) -> Plan {
 	let mut infos = Vec::new();
 	let mut items = Vec::new();
 	let mut per_n = Vec::new();
-	for n in 1..=4usize {
+	let n_light = tier.pick(4, 5);
+	for n in 1..=n_light {
 		let all = shapes(n);
 		let mut used = 0;
+		let mut used_light = 0;
 		for (si, shape) in all.iter().enumerate() {
 			let tie = shortest_path_counts(n, shape).iter().any(|c| *c >= 2);
 			let diamond = has_two_parents(n, shape);
-			// the quick tier adds the four-version shapes in which two shortest paths tie
-			let full = n <= n_max;
-			if !full && !tie {
+			// the quick tier gives the full treatment to the four-version shapes in which two shortest paths tie
+			let full = n <= n_max || (n == 4 && tie);
+			let all_bits = (1u32 << n) - 1;
+			let few_masks = dedup_u32(vec![0, all_bits, 0b10101 & all_bits, 0b01010 & all_bits]);
+			let masks: Vec<u32> = (0..=all_bits).collect();
+			infos.push(ShapeInfo { n, si, shape: shape.clone(), diamond, tie, masks, few_masks: few_masks.clone() });
+			if !full {
+				used_light += 1;
+				items.push(Item::Light { n, si });
 				continue;
 			}
 			used += 1;
-			let all_bits = (1u32 << n) - 1;
-			let few_masks = dedup_u32(vec![0, all_bits, 0b0101 & all_bits, 0b1010 & all_bits]);
-			let masks: Vec<u32> = (0..=all_bits).collect();
-			infos.push(ShapeInfo { n, si, shape: shape.clone(), diamond, tie, masks, few_masks: few_masks.clone() });
 			let labellings = vcore::enumerate::Product::size(&vec![k; n]);
 			for li in 0..labellings {
 				items.push(Item::WellFormed { n, si, li });
@@ -1428,11 +1554,13 @@ fn plan(tier: vcore::Tier) -> Plan {
 				items.push(Item::Outside { n, si, mask });
 			}
 		}
-		per_n.push(json!({"versions": n, "shapes_existing": all.len(), "shapes_explored": used}));
+		per_n.push(json!({"versions": n, "shapes_existing": all.len(), "shapes_explored": used, "shapes_explored_in_the_light_form": used_light}));
 	}
 	let bounds = json!({
 		"versions_max_all_shapes": n_max,
 		"versions_max_tie_diamond_shapes": 4,
+		"versions_max_light_form": n_light,
+		"light_form": "every shape beyond the full bound: the rotation labellings (k + 1) x four namings x three listing orders with the extended root, and every single mutation of the pairwise-different labelling under two namings (none split, all split) x three listing orders",
 		"shapes": per_n,
 		"pool_states": k,
 		"namespaces": NS,
@@ -1448,7 +1576,7 @@ fn plan(tier: vcore::Tier) -> Plan {
 
 fn expand(t: &Texts, plan: &Plan, item: &Item) -> Vec<Group> {
 	let (n, si) = match item {
-		Item::WellFormed { n, si, .. } | Item::Rich { n, si, .. } | Item::Malformed { n, si, .. } | Item::Outside { n, si, .. } => (*n, *si),
+		Item::WellFormed { n, si, .. } | Item::Rich { n, si, .. } | Item::Malformed { n, si, .. } | Item::Outside { n, si, .. } | Item::Light { n, si } => (*n, *si),
 	};
 	let info = plan.shapes.iter().find(|s| s.n == n && s.si == si).unwrap_or_else(|| fail("plan"));
 	let shape = &info.shape;
@@ -1476,6 +1604,20 @@ fn expand(t: &Texts, plan: &Plan, item: &Item) -> Vec<Group> {
 			let kind = if lab == &distinct_lab(n, k) { Orders::Rich } else { Orders::Basic };
 			for (mname, dom, files) in mutations(t, k, n, shape, lab, *mask, !plan.quick) {
 				groups.push(group(label(&format!("lab={lab:?}/split={mask:04b}/{mname}")), dom, files, kind, info.diamond));
+			}
+		},
+		Item::Light { .. } => {
+			for lab in rotation_labs(n, k) {
+				for &mask in &info.few_masks {
+					groups.push(group(label(&format!("lab={lab:?}/split={mask:05b}/root=extended/light")), Domain::WellFormed, well_formed_files(shape, &lab, mask, true), Orders::Basic, info.diamond));
+				}
+			}
+			let lab = distinct_lab(n, k);
+			let all_bits = (1u32 << n) - 1;
+			for mask in [0, all_bits] {
+				for (mname, dom, files) in mutations(t, k, n, shape, &lab, mask, false) {
+					groups.push(group(label(&format!("lab={lab:?}/split={mask:05b}/{mname}/light")), dom, files, Orders::Basic, info.diamond));
+				}
 			}
 		},
 		Item::Outside { mask, .. } => {
@@ -1530,9 +1672,10 @@ fn main() {
 		Item::Rich { .. } => 1,
 		Item::Malformed { .. } => 2,
 		Item::Outside { .. } => 3,
+		Item::Light { .. } => 3,
 		Item::WellFormed { .. } => 4,
 	});
-	let acc = items.par_iter().with_max_len(2).fold(Acc::default, |mut acc, item| {
+	let mut acc = items.par_iter().with_max_len(2).fold(Acc::default, |mut acc, item| {
 		for g in expand(&t, &plan, item) {
 			let s = vcore::watched(|| format!("group {} ({} files, {} orders)", g.label, g.files.len(), g.orders.len()), || run_group(&run, &g, &mut acc.perms, &mut acc.name_orders));
 			acc.st = std::mem::take(&mut acc.st).merge(s);
@@ -1540,7 +1683,12 @@ fn main() {
 		}
 		acc
 	}).reduce(Acc::default, Acc::merge);
-	let st = acc.st;
+	let shapes_dirs = acc.st.evaluations;
+	let shapes_wall = ctx.elapsed_s();
+	// second engine: edit histories
+	let hist = histories::run(&run, plan.quick);
+	let hist_wall = ctx.elapsed_s() - shapes_wall;
+	let st = std::mem::take(&mut acc.st).merge(hist.st);
 	let leftovers = listing(&root).len();
 	let _ = std::fs::remove_dir_all(&root);
 	if leftovers != 0 {
@@ -1582,11 +1730,21 @@ fn main() {
 		}
 	}
 	ctx.floor("directories outside the statement's domain explored for panics", 10, st.get("directories:outside-domain"));
+	ctx.floor("names derived from the directory that no file defines, refused", 1000, st.get("refused:unknown-version-derived"));
+	ctx.floor("shapes explored in the light form", 1, plan.items.iter().filter(|i| matches!(i, Item::Light { .. })).count() as u64);
+	for (name, required, measured) in &hist.floors {
+		ctx.floor(name, *required, *measured);
+	}
 	if !controlled {
 		ctx.note("listing order could not be controlled on the scratch file system: order coverage is whatever the file system produced");
 	}
 
 	let calls = st.get("real-code-calls");
+	// the bounds of the shapes engine stay where they were, the histories engine adds its own below them
+	let mut bounds = plan.bounds.clone();
+	if let Some(o) = bounds.as_object_mut() {
+		o.insert("histories_engine".into(), hist.bounds.clone());
+	}
 	let coverage = json!({
 		"states": st.distinct.len(),
 		"transitions": calls,
@@ -1596,7 +1754,8 @@ fn main() {
 		"rule": "a state is one directory: (file names, file contents, observed listing order); distinct_nontrivial/states = distinct such directories, every one created on disk and read by the real VersionGraph::resolve; transitions = executions of resolve / versions / get / apply_diffs of /repo/src/version_graph.rs; every directory's observations are compared with the reference reading of the directory (traces_validated_against_impl = directories)",
 		"exhaustive": exhaustive,
 		"samples": st.samples,
-		"bounds": plan.bounds,
+		"bounds": bounds,
+		"engines": {"shapes": {"directories": shapes_dirs, "wall_s": (shapes_wall * 10.0).round() / 10.0}, "histories": {"directories": st.get("history:directories"), "work_items": hist.items, "versions": st.get("history:versions"), "wall_s": (hist_wall * 10.0).round() / 10.0}},
 		"outcomes": st.outcomes,
 		"directories": n_dirs,
 		"groups": acc.groups,
@@ -1606,7 +1765,8 @@ fn main() {
 		"listing_permutations_observed_by_file_count": perms_by_size,
 		"listing_order_control": {"scratch": root.display().to_string().replace(&std::process::id().to_string(), "<pid>"), "tmpfs": tmpfs, "mode": format!("{mode:?}"), "directories_listed_as_intended": n_dirs - st.get("listing-order-not-as-intended")},
 		"edge_diff_action_census": census,
-		"max_versions": plan.n_max.max(4),
+		"max_versions": plan.shapes.iter().map(|s| s.n).max().unwrap_or(0),
+		"max_versions_full_treatment": plan.n_max,
 	});
 	ctx.finish(coverage, &[
 		"every edge file is the reference diff between the states of its two versions, so all root→version paths agree; which of several paths the implementation takes is therefore not observable and not judged",
@@ -1614,12 +1774,26 @@ fn main() {
 		"the full name `client~server` of a split version may or may not be accepted by get; if accepted it must be that version",
 		"an inconsistent diff (old values not matching) is judged through the reference apply of mapmodel: versions all of whose paths are refused by it must be refused, other answers must be the result of some path",
 		"tmpfs lists a directory in a fixed function of creation order (calibrated at start, every directory read back and compared)",
-		"mapping states come from a pool of hand-written states over one universe (classes A, A$B, A$B$C, D, D$I, E); names outside it are not explored",
+		"mapping states come from a pool of hand-written states over one universe (classes A, A$B, A$B$C, D, D$I, E) and, in the histories engine, from edits of four root states over the universe A, A$B, A$B$C, D, E; names outside them are not explored",
+		"histories engine: every directory is a tree (or chain / fan / ladder with commuting sides), so the path to a version is unique or all paths agree; a step after which a named nested class would have an absent or nameless outer class is left out (the statement's extension is not defined there)",
+		"an entry without a target name cannot be added or removed by a diff (the diff language states names), so nameless entries come from the root file only",
 	]);
 }
 
 fn replay(ctx: &'static Ctx, run: &Run, path: &Path) -> ! {
 	let body = vcore::replay_body(path);
+	if let Some(a) = histories::replay(run, &body) {
+		let before = ctx.violation_count();
+		let b = histories::replay(run, &body).unwrap_or_else(|| fail("replay"));
+		if a.outcomes != b.outcomes || ctx.violation_count() != before * 2 {
+			fail("replay is not deterministic");
+		}
+		for (k, v) in &a.outcomes {
+			println!("{k}: {v}");
+		}
+		let _ = std::fs::remove_dir_all(run.root);
+		ctx.finish(json!({"states": 1, "transitions": a.get("real-code-calls"), "traces_validated_against_impl": 1, "samples": ["replay"]}), &[]);
+	}
 	let mut files = Vec::new();
 	let mut label = String::from("replay");
 	for line in body.lines() {
